@@ -131,12 +131,17 @@ def pWOut : Worker.WOut → String
   | .newRound h c => s!"round:{h}:{b01 c}"
   | .stopTimer => "stop"
 
+def tCancelAt : T → Option (Option Nat)
+  | .atom "-" => some none
+  | .atom s => s.toNat?.map some
+  | _ => none
+
 def tSpi : T → Option Worker.WSpi
   | .node "prop" [b, c] => do
       match ← tBlock b with
-      | some blk => pure (.term (.proposal blk (← tBool c)))
+      | some blk => pure (.term (.proposal blk (← tCancelAt c)))
       | none => none
-  | .node "verd" [a, c] => do pure (.term (.verdict (← tBool a) (← tBool c)))
+  | .node "verd" [a, c] => do pure (.term (.verdict (← tBool a) (← tCancelAt c)))
   | .node "ccb" [a] => do pure (.commitCb (← tBool a))
   | .node "cmt" [.list ms] => do
       pure (.committee (← ms.mapM (fun t => match t with
